@@ -46,7 +46,7 @@ def run(ctx):
                 ctx.inconcl(rr.bad)
     ctx.rule = ("scenario = seeded (min,max threads, idle timeout, queue size, submitter count, submission pattern "
                 "{tight spin-barrier burst | streams | streams racing stop() | submissions around the idle-exit instant}, "
-                "task kinds {quick, sleep, throw, nested submit, latch}, API mix enqueue/tryEnqueue/enqueueWithResult, "
+                "task kinds {quick, sleep, throw std::runtime_error / int / std::string, nested submit, latch}, API mix enqueue/tryEnqueue/enqueueWithResult, "
                 "first or second life of the pool (stop -> reset -> start after a short earlier life), "
                 "shutdown kind {destructor | stop | drain+stop | stop racing submitters | shutdown() racing submitters}); distinct = hash of those "
                 "coordinates plus (refusal seen?, throwing task seen?, concurrency high-water mark). Long-task family: every worker busy with a "
@@ -62,7 +62,7 @@ def run(ctx):
                     "shutdown_kind_stop", "shutdown_kind_drain_stop", "shutdown_kind_stop_racing_submitters", "shutdown_kind_shutdown_racing_submitters", "submitter_pre_lock_delays",
                     "pattern_tight_burst", "pattern_idle_exit_race", "scenarios_reaching_max_threads",
                     "late_submission_refused_cleanly", "condvar_prepark_delays", "thread_create_delays", "worker_post_unlock_delays",
-                    "scenarios_in_second_life", "long_scenarios", "long_shutdown", "long_destructor", "long_stop", "long_stop-after-timed-out-drain", "long_drain_timed_out_before_stop")
+                    "scenarios_in_second_life", "tasks_throwing_non_std_exception", "long_scenarios", "long_shutdown", "long_destructor", "long_stop", "long_stop-after-timed-out-drain", "long_drain_timed_out_before_stop")
 
 
 def replay(ctx, path):
